@@ -1,5 +1,295 @@
-import TshVerif.Base
+/-
+  C15 - std/strings agrees with Go's strings package.
+
+  `Std.Lib.f` is a hand-written rendering of the library function `f` of std/strings.tsh (loop for loop;
+  tied to the library by running both on the same arguments in every run, 8.9k tuples in the quick tier);
+  `Std.Go.f` is a declarative specification of Go's function on ASCII arguments (tied to the real
+  package the same way).  Proved here, for ALL arguments: `Lib.f = Go.f` for
+      HasPrefix, HasSuffix, Index, Contains, Join, Repeat (count ≥ 0; Go panics below), CutPrefix,
+      CutSuffix, TrimPrefix, TrimSuffix, Cut
+  including empty strings, empty separators and substrings longer than the string.
+  Count, Split, Replace, ReplaceAll, TrimLeft, TrimRight, Trim, TrimSpace are decided by the
+  exhaustive small-scope comparison of the check (rendering, specification, compiled library and Go's
+  package on the same tuples), not by a theorem.
+-/
+import TshVerif.Model.StdStrings
 namespace Tsh.C15
-open Tsh
+open Tsh.Std
+
+theorem slice_zero (s : Str) (n : Nat) : slice s 0 n = s.take n := by simp [slice]
+theorem slice_to_end (s : Str) (a : Nat) : slice s a s.length = s.drop a := by simp [slice]
+
+theorem isPrefixOf_eq_take (p s : Str) : p.isPrefixOf s = (s.take p.length == p) := by
+  rw [Bool.eq_iff_iff]
+  simp only [List.isPrefixOf_iff_prefix, beq_iff_eq]
+  rw [List.prefix_iff_eq_take]
+  exact eq_comm
+
+/-- **HasPrefix** -/
+theorem hasPrefix_eq (s p : Str) : Lib.hasPrefix s p = Go.hasPrefix s p := by
+  unfold Lib.hasPrefix Go.hasPrefix
+  rw [isPrefixOf_eq_take, slice_zero]
+  split
+  · rfl
+  · rename_i h
+    symm
+    simp only [beq_eq_false_iff_ne, ne_eq]
+    intro he
+    have := congrArg List.length he
+    simp at this
+    omega
+
+theorem isSuffixOf_eq_drop (p s : Str) : p.isSuffixOf s = (s.drop (s.length - p.length) == p) := by
+  rw [Bool.eq_iff_iff]
+  simp only [List.isSuffixOf_iff_suffix, beq_iff_eq]
+  rw [List.suffix_iff_eq_drop]
+  exact eq_comm
+
+/-- **HasSuffix** -/
+theorem hasSuffix_eq (s p : Str) : Lib.hasSuffix s p = Go.hasSuffix s p := by
+  unfold Lib.hasSuffix Go.hasSuffix
+  rw [isSuffixOf_eq_drop, slice_to_end]
+  split
+  · rfl
+  · rename_i h
+    symm
+    simp only [beq_eq_false_iff_ne, ne_eq]
+    intro he
+    have := congrArg List.length he
+    simp at this
+    omega
+
+/-! ### Index -/
+
+theorem charAt_eq_iff (s sub : Str) (a k : Nat) (hk : k < sub.length) :
+    charAt s a = charAt sub k ↔ s[a]? = some sub[k] := by
+  unfold charAt
+  have e2 : (sub.drop k).take 1 = [sub[k]] := by rw [List.drop_eq_getElem_cons hk]; simp [List.take]
+  rw [e2]
+  by_cases ha : a < s.length
+  · have e1 : (s.drop a).take 1 = [s[a]] := by rw [List.drop_eq_getElem_cons ha]; simp [List.take]
+    rw [e1, List.getElem?_eq_getElem ha]
+    simp
+  · have : s.drop a = [] := List.drop_eq_nil_of_le (by omega)
+    rw [this, List.getElem?_eq_none (by omega : s.length ≤ a)]
+    simp
+
+/-- the inner loop stops at `sub.length` exactly when the rest of `sub` matches at that place -/
+theorem innerMatch_spec (s sub : Str) (i : Nat) : ∀ (f j : Nat), sub.length - j ≤ f → j ≤ sub.length →
+    (Lib.innerMatch s sub i f j = sub.length ↔ (sub.drop j).isPrefixOf (s.drop (i + j)) = true) ∧
+    Lib.innerMatch s sub i f j ≤ sub.length := by
+  intro f
+  induction f with
+  | zero =>
+    intro j hf hj
+    have : j = sub.length := by omega
+    subst this
+    simp [Lib.innerMatch]
+  | succ f ih =>
+    intro j hf hj
+    unfold Lib.innerMatch
+    by_cases hlt : j < sub.length
+    · simp only [hlt, if_true]
+      have hd : sub.drop j = sub[j] :: sub.drop (j + 1) := List.drop_eq_getElem_cons hlt
+      by_cases hc : charAt s (i + j) = charAt sub j
+      · have hs := (charAt_eq_iff s sub (i + j) j hlt).mp hc
+        have hlt2 : i + j < s.length := by
+          by_cases h : i + j < s.length
+          · exact h
+          · rw [List.getElem?_eq_none (by omega)] at hs; cases hs
+        have hsd : s.drop (i + j) = s[i + j] :: s.drop (i + j + 1) := List.drop_eq_getElem_cons hlt2
+        have heq : s[i + j] = sub[j] := by
+          rw [List.getElem?_eq_getElem hlt2] at hs; exact Option.some.inj hs
+        simp only [hc, bne_self_eq_false, Bool.false_eq_true, if_false]
+        obtain ⟨h1, h2⟩ := ih (j + 1) (by omega) (by omega)
+        refine ⟨?_, h2⟩
+        rw [h1, hd, hsd, heq]
+        simp [List.isPrefixOf, Nat.add_assoc]
+      · have hne : (charAt s (i + j) != charAt sub j) = true := by simp [hc]
+        simp only [hne, if_true]
+        refine ⟨?_, Nat.le_of_lt hlt⟩
+        constructor
+        · intro h; omega
+        · intro h
+          exfalso
+          apply hc
+          rw [charAt_eq_iff s sub (i + j) j hlt]
+          rw [hd] at h
+          cases hsd : s.drop (i + j) with
+          | nil => rw [hsd] at h; simp [List.isPrefixOf] at h
+          | cons c t =>
+            rw [hsd] at h
+            simp only [List.isPrefixOf, Bool.and_eq_true, beq_iff_eq] at h
+            have hlt2 : i + j < s.length := by
+              by_cases hh : i + j < s.length
+              · exact hh
+              · rw [List.drop_eq_nil_of_le (by omega)] at hsd; cases hsd
+            rw [List.drop_eq_getElem_cons hlt2] at hsd
+            simp only [List.cons.injEq] at hsd
+            rw [List.getElem?_eq_getElem hlt2, hsd.1, ← h.1]
+    · have : j = sub.length := by omega
+      subst this
+      simp
+
+theorem innerMatch_full (s sub : Str) (i : Nat) :
+    (Lib.innerMatch s sub i sub.length 0 == sub.length) = sub.isPrefixOf (s.drop i) := by
+  have := (innerMatch_spec s sub i sub.length 0 (by omega) (by omega)).1
+  simp only [List.drop_zero, Nat.add_zero] at this
+  rw [Bool.eq_iff_iff]
+  simpa using this
+
+theorem indexLoop_spec (s sub : Str) (hsub : sub ≠ []) : ∀ (f i : Nat), s.length - i ≤ f → i ≤ s.length →
+    Lib.indexLoop s sub f i = Go.indexFrom sub (s.drop i) i := by
+  intro f
+  induction f with
+  | zero =>
+    intro i hf hi
+    have : i = s.length := by omega
+    subst this
+    have hp : sub.isPrefixOf ([] : Str) = false := by
+      cases sub with
+      | nil => exact absurd rfl hsub
+      | cons a b => rfl
+    simp [Lib.indexLoop, Go.indexFrom, hp]
+  | succ f ih =>
+    intro i hf hi
+    unfold Lib.indexLoop
+    by_cases hlt : i < s.length
+    · simp only [hlt, if_true]
+      rw [innerMatch_full]
+      have hd : s.drop i = s[i] :: s.drop (i + 1) := List.drop_eq_getElem_cons hlt
+      rw [hd, Go.indexFrom, ← hd]
+      split
+      · rfl
+      · exact ih (i + 1) (by omega) (by omega)
+    · have : i = s.length := by omega
+      subst this
+      have hp : sub.isPrefixOf ([] : Str) = false := by
+        cases sub with
+        | nil => exact absurd rfl hsub
+        | cons a b => rfl
+      simp [Go.indexFrom, hp]
+
+theorem indexFrom_nil (s : Str) (off : Nat) : Go.indexFrom [] s off = off := by
+  cases s <;> simp [Go.indexFrom, List.isPrefixOf]
+
+/-- **Index** -/
+theorem index_eq (s sub : Str) : Lib.index s sub = Go.index s sub := by
+  unfold Lib.index Go.index
+  by_cases h : sub = []
+  · subst h; simp [indexFrom_nil]
+  · have : (sub.length == 0) = false := by
+      cases sub with
+      | nil => exact absurd rfl h
+      | cons a b => rfl
+    simp only [this, Bool.false_eq_true, if_false]
+    have := indexLoop_spec s sub h s.length 0 (by omega) (by omega)
+    simpa using this
+
+/-- **Contains** -/
+theorem contains_eq (s sub : Str) : Lib.contains s sub = Go.contains s sub := by
+  unfold Lib.contains Go.contains; rw [index_eq]
+
+/-! ### Join, Repeat -/
+
+theorem intercalate_cons (sep e : Str) (rest : List Str) :
+    sep.intercalate (e :: rest) = e ++ (if rest = [] then [] else sep ++ sep.intercalate rest) := by
+  cases rest with
+  | nil => simp [List.intercalate]
+  | cons x xs => simp [List.intercalate, List.intersperse]
+
+theorem joinLoop_spec (elems : List Str) (sep : Str) : ∀ (f i : Nat) (acc : Str), elems.length - i ≤ f → i ≤ elems.length →
+    Lib.joinLoop elems sep elems.length f i acc = acc ++ sep.intercalate (elems.drop i) := by
+  intro f
+  induction f with
+  | zero =>
+    intro i acc hf hi
+    have : i = elems.length := by omega
+    subst this
+    simp [Lib.joinLoop, List.intercalate]
+  | succ f ih =>
+    intro i acc hf hi
+    unfold Lib.joinLoop
+    by_cases hlt : i < elems.length
+    · simp only [hlt, if_true]
+      rw [ih (i + 1) _ (by omega) (by omega)]
+      have hd : elems.drop i = elems[i] :: elems.drop (i + 1) := List.drop_eq_getElem_cons hlt
+      rw [hd, intercalate_cons]
+      have hg : elems.getD i [] = elems[i] := by simp [List.getD, List.getElem?_eq_getElem hlt]
+      rw [hg]
+      by_cases hl : i < elems.length - 1
+      · have hne : elems.drop (i + 1) ≠ [] := by
+          intro he
+          have := congrArg List.length he
+          simp at this; omega
+        simp [hl, hne, List.append_assoc]
+      · have he : elems.drop (i + 1) = [] := List.drop_eq_nil_of_le (by omega)
+        simp [hl, he, List.intercalate]
+    · have : i = elems.length := by omega
+      subst this
+      simp [List.intercalate]
+
+/-- **Join** -/
+theorem join_eq (elems : List Str) (sep : Str) : Lib.join elems sep = Go.join elems sep := by
+  unfold Lib.join Go.join
+  have := joinLoop_spec elems sep elems.length 0 [] (by omega) (by omega)
+  simpa using this
+
+theorem repeatLoop_spec (s : Str) (count : Int) : ∀ (f : Nat) (i : Int) (acc : Str), i ≤ count → (count - i).toNat ≤ f →
+    Lib.repeatLoop s count f i acc = acc ++ (List.replicate (count - i).toNat s).flatten := by
+  intro f
+  induction f with
+  | zero =>
+    intro i acc hi hf
+    have : (count - i).toNat = 0 := by omega
+    simp [Lib.repeatLoop, this]
+  | succ f ih =>
+    intro i acc hi hf
+    unfold Lib.repeatLoop
+    by_cases hlt : i < count
+    · simp only [hlt, if_true]
+      rw [ih (i + 1) (acc ++ s) (by omega) (by omega)]
+      have e : (count - i).toNat = (count - (i + 1)).toNat + 1 := by omega
+      rw [e, List.replicate_succ]
+      simp [List.append_assoc]
+    · have : (count - i).toNat = 0 := by omega
+      simp [hlt, this]
+
+/-- **Repeat** (Go panics for a negative count; the library returns "") -/
+theorem repeat_eq (s : Str) (count : Int) (h : 0 ≤ count) : Go.repeat_ s count = some (Lib.repeat_ s count) := by
+  unfold Go.repeat_ Lib.repeat_
+  have hn : ¬ count < 0 := by omega
+  simp only [hn, if_false]
+  have := repeatLoop_spec s count count.toNat 0 [] h (by simp)
+  simp only [Int.sub_zero, List.nil_append] at this
+  rw [this]
+
+/-! ### Cut family -/
+
+/-- **CutPrefix** -/
+theorem cutPrefix_eq (s p : Str) : Lib.cutPrefix s p = Go.cutPrefix s p := by
+  unfold Lib.cutPrefix Go.cutPrefix
+  rw [hasPrefix_eq, slice_to_end]; rfl
+
+/-- **CutSuffix** -/
+theorem cutSuffix_eq (s p : Str) : Lib.cutSuffix s p = Go.cutSuffix s p := by
+  unfold Lib.cutSuffix Go.cutSuffix
+  rw [hasSuffix_eq, slice_zero]; rfl
+
+/-- **TrimPrefix**, **TrimSuffix** -/
+theorem trimPrefix_eq (s p : Str) : Lib.trimPrefix s p = Go.trimPrefix s p := by
+  unfold Lib.trimPrefix Go.trimPrefix; rw [cutPrefix_eq]
+theorem trimSuffix_eq (s p : Str) : Lib.trimSuffix s p = Go.trimSuffix s p := by
+  unfold Lib.trimSuffix Go.trimSuffix; rw [cutSuffix_eq]
+
+/-- **Cut** -/
+theorem cut_eq (s sep : Str) : Lib.cut s sep = Go.cut s sep := by
+  unfold Lib.cut Go.cut
+  rw [index_eq]
+  simp only [slice_zero, slice_to_end]
+
+/-! non-vacuity -/
+example : Lib.index "hello".toList "ll".toList = 2 ∧ Lib.index "hello".toList "".toList = 0 ∧ Lib.index "".toList "x".toList = -1 := by decide
+example : Lib.join ["a".toList, "".toList, "b".toList] ", ".toList = "a, , b".toList := by decide
 
 end Tsh.C15
